@@ -204,8 +204,14 @@ class Ed25519Key(PKey):
         if msg.get_text() != self.name:
             return False
 
+        # A key loaded from a private key file only has a signing key; use its
+        # public half (as asbytes() and _fields do).
+        if self.can_sign():
+            verifying_key = self._signing_key.verify_key
+        else:
+            verifying_key = self._verifying_key
         try:
-            self._verifying_key.verify(data, msg.get_binary())
+            verifying_key.verify(data, msg.get_binary())
         except nacl.exceptions.BadSignatureError:
             return False
         else:
